@@ -504,9 +504,11 @@ USE_OPS = ["Dgate", "Rgate", "Sgate", "Kgate"]
 
 def gen_history(rng, shots_variant=False):
     u = next(_uid)
-    n = rng.randint(2, 4)
+    n = rng.choice([2, 3, 4, 4, 11, 12])
+    modes_all = list(range(n)) if n <= 4 else [0, 1, n - 3, n - 2, n - 1]   # two-digit indices on large registers
     name = f"h{u}"
     free = {name: dy(rng)}
+    opt = (not shots_variant) and rng.random() < 0.3
     segs, measured = [], []
     for s in range(rng.randint(1, 4)):
         cmds = []
@@ -515,26 +517,53 @@ def gen_history(rng, shots_variant=False):
             if shots_variant and s == 0:
                 k = rng.choice(["measure", "prepare"])
             if k == "measure":
-                modes = rng.sample(range(n), rng.choice([1, 1, 2]) if n > 1 else 1)
+                modes = rng.sample(modes_all, rng.choice([1, 1, 2]) if n > 1 else 1)
                 cmds.append(dict(k="measure", modes=modes, vals=[dy(rng) for _ in modes],
                                  how="homodyne" if len(modes) == 1 and rng.random() < 0.7 else "fock"))
                 measured += [m for m in modes if m not in measured]
             elif k == "prepare":
-                cmds.append(dict(k="prepare", mode=rng.randrange(n), how=rng.choice(["Vacuum", "Coherent"])))
+                cmds.append(dict(k="prepare", mode=rng.choice(modes_all), how=rng.choice(["Vacuum", "Coherent"])))
             else:
-                pool = measured if (measured and rng.random() < 0.88) else list(range(n))
+                prev_use = [c for sg in segs + [cmds] for c in sg if c["k"] == "use"]
+                if prev_use and rng.random() < 0.3:
+                    # the same operation (same class, same expression) applied again, elsewhere
+                    c0 = rng.choice(prev_use)
+                    cmds.append(dict(c0, target=rng.choice(modes_all)))
+                    continue
+                pool = measured if (measured and rng.random() < 0.88) else modes_all
                 t = px.gen_expr(rng, rng.randint(0, 2), [name] if rng.random() < 0.3 else [], pool, p_atom=0.5)
-                if not (px.atoms(t, "m") or px.atoms(t, "f")):
+                if not px.atoms(t, "m") and (opt or not px.atoms(t, "f")):
                     t = {"add": [t, {"m": rng.choice(pool)}]}
                 cmds.append(dict(k="use", e=t, op=rng.choice(USE_OPS), dagger=rng.random() < 0.4,
-                                 target=rng.randrange(n)))
+                                 target=rng.choice(modes_all)))
+                if measured and rng.random() < 0.25:
+                    # a mode just read is measured again right behind (feed-forward must not slip behind it)
+                    rd = [m for m in px.atoms(t, "m") if m in measured]
+                    if rd:
+                        cmds.append(dict(k="measure", modes=[rd[0]], vals=[dy(rng)], how="homodyne"))
         segs.append(cmds)
     if shots_variant:
         for c in segs[0]:
             if c["k"] == "measure":
                 c["vals"] = [[dy(rng) for _ in range(3)] for _ in c["modes"]]  # per mode: 3 shots
+    # registers with holes: delete a mode nobody uses, create a mode late and act on it
+    flat = [c for sg in segs for c in sg]
+    used = {m for c in flat for m in (c.get("modes", []) + [c.get("mode"), c.get("target")] + (px.atoms(c["e"], "m") if "e" in c else []))}
+    idle = [m for m in range(n) if m not in used]
+    if idle and not shots_variant and rng.random() < 0.4:
+        sg = rng.choice(segs)
+        sg.insert(rng.randint(0, len(sg)), dict(k="del", mode=rng.choice(idle)))
+    if not shots_variant and rng.random() < 0.3:
+        si = rng.randrange(len(segs))
+        pos = rng.randint(0, len(segs[si]))
+        segs[si].insert(pos, dict(k="new"))
+        later = segs[si][pos + 1:] + [c for sg in segs[si + 1:] for c in sg]
+        for c in later:
+            if c["k"] == "use" and rng.random() < 0.5:
+                c["target"] = n          # the new mode has the next free index
     build = rng.choice(["before", "before", "lazy"])
-    return dict(n=n, free=free, segs=segs, build=build, shots=3 if shots_variant else 1,
+    return dict(n=n, free=free, segs=segs, build=build, shots=3 if shots_variant else 1, opt=opt,
+                share=rng.random() < 0.6,
                 run=rng.choice(["list", "successive"]) if build == "before" and not shots_variant else "successive",
                 decoy=rng.random() < 0.5, rerun=rng.choice([None, None, "fresh", "reset"]) if build == "before" else None,
                 premature=build == "before" and rng.random() < 0.35, suffix=rng.random() < 0.4)
@@ -542,9 +571,8 @@ def gen_history(rng, shots_variant=False):
 
 def history_reference(sf, h):
     """flat semantics: every use sees the latest outcome of its own modes; first missing atom aborts.
-    returns (trace of applied first arguments, error or None)"""
+    returns (trace of (target, applied first argument), error or None)"""
     latest, trace = {}, []
-    scale = {}
     for cmds in h["segs"]:
         for c in cmds:
             if c["k"] == "measure":
@@ -555,56 +583,94 @@ def history_reference(sf, h):
                     v = px.fold(c["e"], h["free"], latest)
                 except px.Unbound as ub:
                     return trace, f"{ub.kind}:{ub.what}"
-                v = np.asarray(v, dtype=float) * scale.get(c["op"], 1.0)
-                trace.append((-v if c["dagger"] else v).tolist())
+                v = np.asarray(v, dtype=float)
+                trace.append((c["target"], (-v if c["dagger"] else v).tolist()))
     return trace, None
 
 
-def _fill(sf, prog, cmds, free_name):
+def _fill(sf, prog, cmds, free_name, cache=None):
+    """append the commands to `prog`; with `cache` (a dict) equal expressions are ONE SymPy object and equal
+    operations ONE Operation instance within the program (users build `g = Dgate(q[0].par)` once)"""
     from strawberryfields import ops
     fobj = {free_name: prog.params(free_name)}
-    with prog.context as q:
+    with prog.context:
+        R = prog.reg_refs
         for c in cmds:
             if c["k"] == "measure":
-                regs = [q[m] for m in c["modes"]]
+                regs = [R[m] for m in c["modes"]]
                 if c["how"] == "homodyne":
                     ops.MeasureHomodyne(0.0) | regs[0]
                 else:
                     ops.MeasureFock() | regs
             elif c["k"] == "prepare":
-                (ops.Vacuum() if c["how"] == "Vacuum" else ops.Coherent(0.5, 0.25)) | q[c["mode"]]
+                (ops.Vacuum() if c["how"] == "Vacuum" else ops.Coherent(0.5, 0.25)) | R[c["mode"]]
+            elif c["k"] == "del":
+                ops.Del | R[c["mode"]]
+            elif c["k"] == "new":
+                ops.New(1)
             else:
-                e = px.to_sympy(c["e"], fobj, q)
-                o = getattr(ops, c["op"])(e, 0.0) if c["op"] in ("Dgate", "Sgate") else getattr(ops, c["op"])(e)
+                ek = json.dumps(c["e"], sort_keys=True)
+                if cache is not None and ("e", ek) in cache:
+                    e = cache[("e", ek)]
+                else:
+                    e = px.to_sympy(c["e"], fobj, R)
+                    if cache is not None:
+                        cache[("e", ek)] = e
+                ok = ("o", c["op"], ek)
+                if cache is not None and ok in cache:
+                    o = cache[ok]
+                else:
+                    o = getattr(ops, c["op"])(e, 0.0) if c["op"] in ("Dgate", "Sgate") else getattr(ops, c["op"])(e)
+                    if cache is not None:
+                        cache[ok] = o
                 if c["dagger"]:
                     o = o.H
-                o | q[c["target"]]
+                o | R[c["target"]]
 
 
 def _outcomes(h, segs=None):
+    """scripted outcomes, keyed by the measured modes"""
     out = []
     for cmds in (segs if segs is not None else h["segs"]):
         for c in cmds:
             if c["k"] == "measure":
                 v = np.array(c["vals"], dtype=float)
-                out.append(v.T if v.ndim == 2 else v.reshape(1, -1))
+                out.append((tuple(c["modes"]), v.T if v.ndim == 2 else v.reshape(1, -1)))
     return out
 
 
 def _trace(backend):
     key = {"displacement", "rotation", "squeeze", "kerr"}
-    return [c[2][0] for c in backend.calls if c[0] in key]
+    return [(c[1][0], c[2][0]) for c in backend.calls if c[0] in key]
+
+
+def _same_trace(h, tr, ref):
+    """exact order when nothing reorders; per target mode when the optimizer may reorder independent commands"""
+    if len(tr) != len(ref):
+        return False
+    if not h.get("opt"):
+        return all(a[0] == b[0] and px.close(a[1], b[1]) for a, b in zip(tr, ref))
+    for t in {a[0] for a in tr} | {b[0] for b in ref}:
+        x = [a[1] for a in tr if a[0] == t]
+        y = [b[1] for b in ref if b[0] == t]
+        if len(x) != len(y) or not all(px.close(a, b) for a, b in zip(x, y)):
+            return False
+    return True
+
+
+def _run_kw(h):
+    return dict(compile_options=dict(compiler="fock", optimize=True, warn_connected=False)) if h.get("opt") else {}
 
 
 def history_real(sf, h):
-    """returns (trace, error string or None, notes)"""
+    """returns (trace, error string or None, rerun result, suffix result)"""
     PE = perr(sf)
     fname = next(iter(h["free"]))
     progs = []
 
     def build(k):
         p = sf.Program(h["n"]) if k == 0 else sf.Program(progs[k - 1])
-        _fill(sf, p, h["segs"][k], fname)
+        _fill(sf, p, h["segs"][k], fname, {} if h.get("share") else None)
         progs.append(p)
     if h["build"] == "before":
         for k in range(len(h["segs"])):
@@ -619,20 +685,24 @@ def history_real(sf, h):
         # a first attempt to run the last segment alone (legitimately fails when it needs earlier outcomes)
         b0 = px.make_backend(_outcomes(h, h["segs"][-1:]) * 2)
         try:
-            sf.Engine(b0).run(progs[-1], args=dict(h["free"]))
+            sf.Engine(b0).run(progs[-1], args=dict(h["free"]), **_run_kw(h))
         except PE:
             pass
+        except RuntimeError as e:   # a successor whose register starts with deleted / created modes is refused
+            if "Register mismatch" not in str(e):
+                raise
 
     def attempt(eng, backend):
         try:
             if h["run"] == "list":
-                eng.run(progs, args=dict(h["free"]), shots=h["shots"]) if h["shots"] > 1 else eng.run(progs, args=dict(h["free"]))
+                kw = dict(shots=h["shots"]) if h["shots"] > 1 else {}
+                eng.run(progs, args=dict(h["free"]), **kw, **_run_kw(h))
             else:
                 for k in range(len(h["segs"])):
-                    if h["build"] == "lazy":
+                    if h["build"] == "lazy" and len(progs) <= k:
                         build(k)
                     kw = dict(shots=h["shots"]) if (h["shots"] > 1 and k == 0) else {}
-                    eng.run(progs[k], args=dict(h["free"]), **kw)
+                    eng.run(progs[k], args=dict(h["free"]), **kw, **_run_kw(h))
             return None
         except PE as e:
             return "ParameterError"
@@ -645,11 +715,13 @@ def history_real(sf, h):
         # the last segment alone on a fresh engine: its Program's RegRefs still hold the outcomes of the full run
         b3 = px.make_backend(_outcomes(h, h["segs"][-1:]))
         try:
-            sf.Engine(b3).run(progs[-1], args=dict(h["free"]))
-            e3 = None
+            sf.Engine(b3).run(progs[-1], args=dict(h["free"]), **_run_kw(h))
+            suffix = (_trace(b3), None)
         except PE:
-            e3 = "ParameterError"
-        suffix = (_trace(b3), e3)
+            suffix = (_trace(b3), "ParameterError")
+        except RuntimeError as e:
+            if "Register mismatch" not in str(e):
+                raise
     if h.get("rerun") and h["build"] == "before":
         # the same programs again: their RegRefs still hold the values of the first run
         if h["rerun"] == "fresh":
@@ -685,6 +757,8 @@ def history_model_req(sf, h, own0=None):
                 ms.append({"measure": c["modes"], "vals": [rat(v) for v in c["vals"]]})
             elif c["k"] == "prepare":
                 ms.append({"prepare": c["mode"]})
+            elif c["k"] in ("del", "new"):
+                ms.append({"prepare": c.get("mode", 0)})   # register bookkeeping does not touch RegRef.val
             else:
                 e = c["e"]
                 if c["op"] in sc:
@@ -740,7 +814,8 @@ def history_one(ctx, sf, h, reqs, pend):
             ctx.fail("measured-parameter-not-available" + label,
                      f"every parameter had been measured/bound, but the run raised {err}; applied so far {tr}", rp)
             return False
-        if conditioned and (len(tr) != len(ref_tr) or not all(px.close(a, b) for a, b in zip(tr, ref_tr))):
+        # (when the optimizer may reorder, the commands applied before an error are not determined)
+        if conditioned and not (h.get("opt") and ref_err) and not _same_trace(h, tr, ref_tr):
             ctx.fail("measured-parameter-wrong-value" + label,
                      f"operations were applied with {tr}, the latest outcomes of their own modes give {ref_tr}", rp)
             return False
@@ -770,9 +845,15 @@ def history_compare(ctx, h, got, model):
         ctx.disagree("engine.error", h, model["err"], got["err"])
         return
     if got["cond"]:
-        mt = [px.fold(t) for t in model["trace"]]
-        if len(mt) != len(got["trace"]) or not all(px.close(a, b) for a, b in zip(mt, got["trace"])):
-            ctx.disagree("engine.trace", h, mt, got["trace"])
+        mt = [float(px.fold(t)) for t in model["trace"]]
+        rt = [a[1] for a in got["trace"]]
+        if h.get("opt"):
+            # the optimizer may reorder independent commands; the model runs the written order
+            if got["err"]:
+                return
+            mt, rt = sorted(mt), sorted(float(x) for x in rt)
+        if len(mt) != len(rt) or not all(px.close(a, b) for a, b in zip(mt, rt)):
+            ctx.disagree("engine.trace", h, mt, rt)
 
 
 # =============================================================== O1: symbolic vs substituted programs
